@@ -896,7 +896,7 @@ var c06Gates = map[string]c06Gate{
 	"runtimeState.webauthnBeginRegistration":           {kind: "mask", mask: "webui", extra: "self-or-admin-u2f", exercised: c06EffChange, targets: []string{"alice", "bob", "admin"}},
 	"runtimeState.webauthnFinishRegistration":          {kind: "mask", mask: "webui", extra: "self-or-admin-u2f", exercised: c06EffChange, targets: []string{"alice", "bob", "admin"}},
 	"runtimeState.webauthnAuthLogin":                   {kind: "mask", mask: "any", exercised: c06EffStart},
-	"runtimeState.webauthnAuthFinish":                  {kind: "mask", mask: "any"},
+	"runtimeState.webauthnAuthFinish":                  {kind: "mask", mask: "any", exercised: c06EffChange | c06EffSigned},
 	"runtimeState.VIPAuthHandler":                      {kind: "mask", mask: "any", exercised: c06EffSigned},
 	"runtimeState.u2fTokenManagerHandler":              {kind: "mask", mask: "webui", extra: "self-or-admin-u2f", exercised: c06EffChange, targets: []string{"alice", "bob", "admin"}},
 	"runtimeState.oauth2DoRedirectoToProviderHandler":  {kind: "public"},
@@ -1145,7 +1145,9 @@ func (p *c06Prober) resetMaps() {
 	st.localAuthData = make(map[string]localUserData)
 	if p.signChallenge != nil {
 		// alice is in the middle of a hardware-token login: /u2f/SignResponse can succeed
-		st.localAuthData["alice"] = localUserData{U2fAuthChallenge: p.signChallenge, ExpiresAt: time.Now().Add(time.Hour)}
+		// ... and of a WebAuthn login (/webauthn/AuthFinish can succeed with the token's assertion)
+		st.localAuthData["alice"] = localUserData{U2fAuthChallenge: p.signChallenge, ExpiresAt: time.Now().Add(time.Hour),
+			WebAuthnChallenge: &webauthn.SessionData{Challenge: c06WAChallenge, UserID: []byte("alice"), AllowedCredentialIDs: [][]byte{p.dev.keyHandle}}}
 	}
 	st.vipPushCookie = map[string]pushPollTransaction{c06PollCookie: {Username: "alice", TransactionID: "tx-approved", ExpiresAt: time.Now().Add(time.Hour)}}
 	st.pendingOauth2 = make(map[string]pendingAuth2Request)
@@ -1269,6 +1271,17 @@ func (p *c06Prober) serve(req *http.Request) c06Obs {
 	if bytes.Contains(rr.Body.Bytes(), []byte("vrfcanary")) {
 		o.effects |= c06EffRead
 	}
+	if req.URL.Path == webAuthnAuthFinishPath && (rr.Code == http.StatusOK || rr.Code == http.StatusInternalServerError) {
+		// a verified WebAuthn assertion stores the token's new counter with `go SaveUserProfile(...)` (also when the
+		// session cannot be raised afterwards because the request has no cookie: 500): wait until the write has
+		// landed (it always comes; otherwise it would hit a later probe)
+		for i := 0; i < 1000; i++ {
+			if _, d := p.tableRows(); d != p.baseDig {
+				break
+			}
+			time.Sleep(2 * time.Millisecond)
+		}
+	}
 	if _, d := p.tableRows(); d != p.baseDig {
 		o.effects |= c06EffChange
 		p.restoreTables()
@@ -1315,7 +1328,8 @@ func (p *c06Prober) build(route verifRoute, key, method, target string, own bool
 	case "runtimeState.u2fSignResponse":
 		body = string(c06U2FSignResponse(p.dev, p.signChallenge, u2fTrustedFacets[0]))
 	case "runtimeState.webauthnAuthFinish":
-		body = "{}"
+		// the software token's assertion for the WebAuthn login pending for alice
+		body = string(p.dev.assertion(c06WAChallenge, p.env.state.webAuthn.Config.RPOrigin, u2fAppID))
 	case "runtimeState.addUserHandler":
 		form.Set("username", "vrfnewuser")
 	case "runtimeState.deleteUserHandler", "runtimeState.generateBootstrapOTP":
